@@ -57,20 +57,34 @@ def gen_reflect(rng, n):
 
 
 def null_kernel(d):
-    """does the SVD kernel basis find_isometry starts from contain a (numerically) lightlike vector?"""
+    """does the indefinite Gram-Schmidt that find_isometry runs on the SVD kernel basis of the normal meet a
+    (numerically) lightlike vector at some step?  (replayed here on the same LAPACK output)"""
     from geometry_tools.utils import numerical
     dim = len(d) - 1
     dn = d / math.sqrt(abs(G.mink(d, d)))
     ker = np.array(numerical.svd_kernel((dn @ G.J(dim))[None, :])).T
-    return bool(np.min(np.abs(G.mink(ker, ker))) < 1e-6)
+    res, worst = [], 1.0
+    for row in ker:
+        row = row.copy()
+        for o in res:
+            row = row - o * G.mink(row, o) / G.mink(o, o)
+        worst = min(worst, abs(G.mink(row, row)) / max(np.dot(row, row), 1e-300))
+        if worst < 1e-6:
+            return True
+        res.append(row)
+    return False
 
 
 def run_reflect(inp):
     d = G.fv(inp["d"])
-    Hp = H.Hyperplane(d.copy())
-    D = np.array(Hp.proj_data, dtype=float).copy()
-    R = np.array(Hp.reflection_across().proj_data, dtype=float)
-    return {"R": R.tolist(), "D": D.tolist(), "null_kernel": null_kernel(d)}
+    nk = null_kernel(d)
+    try:
+        Hp = H.Hyperplane(d.copy())
+        D = np.array(Hp.proj_data, dtype=float).copy()
+        R = np.array(Hp.reflection_across().proj_data, dtype=float)
+    except Exception as e:
+        return {"exc": type(e).__name__, "msg": str(e)[:200], "null_kernel": nk}
+    return {"R": R.tolist(), "D": D.tolist(), "null_kernel": nk}
 
 
 def lean_reflect(inp, obs):
@@ -87,7 +101,7 @@ def lean_reflect(inp, obs):
 
 def judge_reflect(inp, obs, lr):
     if "exc" in obs:
-        return exc(obs, "reflection")
+        return exc(obs, "reflection", {"call_site": "utils.find_isometry", "null_kernel_vector": obs.get("null_kernel")})
     e = drv_err(lr)
     if e:
         return e
@@ -120,9 +134,13 @@ def gen_hyper(rng, n):
 
 def run_hyper(inp):
     d = G.fv(inp["d"])
-    T = np.array(H.spacelike_to(d.copy()).proj_data, dtype=float)
-    Hp = H.Hyperplane(d.copy())
-    return {"T": T.tolist(), "data": np.array(Hp.proj_data, dtype=float).tolist(), "null_kernel": null_kernel(d)}
+    nk = null_kernel(d)
+    try:
+        T = np.array(H.spacelike_to(d.copy()).proj_data, dtype=float)
+        Hp = H.Hyperplane(d.copy())
+    except Exception as e:
+        return {"exc": type(e).__name__, "msg": str(e)[:200], "null_kernel": nk}
+    return {"T": T.tolist(), "data": np.array(Hp.proj_data, dtype=float).tolist(), "null_kernel": nk}
 
 
 def lean_hyper(inp, obs):
@@ -133,7 +151,7 @@ def lean_hyper(inp, obs):
 
 def judge_hyper(inp, obs, lr):
     if "exc" in obs:
-        return exc(obs, "hyperplane")
+        return exc(obs, "hyperplane", {"call_site": "utils.find_isometry", "null_kernel_vector": obs.get("null_kernel")})
     e = drv_err(lr)
     if e:
         return e
